@@ -305,6 +305,7 @@ func (fv *FuncVC) applyContract(c *Contract, callee *ssa.Function, args []Val, a
 		fv.logResults(tracked, idx, res)
 	}
 	env.st = fv.cur
+	env.assuming = true
 	env.bindResultNames(c, callee, res)
 	for _, e := range c.Ensures {
 		t := env.evalBool(e.E, e)
